@@ -1,8 +1,70 @@
+(** * EvalProofsA: C15 (static evaluation) - part A.
+    (1) the float64 interpolation of ValueFromScore is an odd function (IEEE-754 round to
+        nearest even and truncation toward zero are sign-symmetric) - proved on Coq's
+        primitive floats through their specification [Prim2SF] (FloatAxioms.mul_spec/opp_spec);
+    (2) re-indexing of sums / existentials over the 64 squares by the vertical flip;
+    (3) the mirrored board, validity of piece codes, symmetry of the dumped piece-square
+        tables (finite check), range of the table look-ups;
+    (4) the recomputed inputs (material, psq sums, game phase, piece counts) and
+        HasInsufficientMaterial under [Rules.mirror]. *)
 From Coq Require Import NArith ZArith List Bool Lia Floats Uint63.
 From FG Require Import Geom Rules FenSpec EvalImpl.
 From FG.gen Require Import Tables_gen.
 Import ListNotations.
 Open Scope Z_scope.
+
+(** ** float64: the interpolation is odd *)
+Lemma SFtrunc_opp x : SFtrunc (SFopp x) = - SFtrunc x.
+Proof. destruct x as [s| s| |s m e]; cbn [SFopp SFtrunc]; try reflexivity. destruct s; cbn [negb]; lia. Qed.
+
+Lemma bra_negb prec emax s m e l :
+  binary_round_aux prec emax (negb s) m e l = SFopp (binary_round_aux prec emax s m e l).
+Proof.
+  unfold binary_round_aux.
+  destruct (shr_fexp prec emax m e l) as [mrs' e'].
+  destruct (shr_fexp prec emax (round_nearest_even (shr_m mrs') (loc_of_shr_record mrs')) e' loc_Exact) as [mrs'' e''].
+  destruct (shr_m mrs''); cbn [SFopp]; try reflexivity.
+  destruct (e'' <=? emax - prec); reflexivity.
+Qed.
+
+Lemma SFmul_opp_l prec emax x y : SFmul prec emax (SFopp x) y = SFopp (SFmul prec emax x y).
+Proof.
+  destruct x as [sx| sx| |sx mx ex], y as [sy| sy| |sy my ey]; cbn [SFopp SFmul]; try reflexivity;
+    try (destruct sx, sy; reflexivity).
+  replace (xorb (negb sx) sy) with (negb (xorb sx sy)) by (destruct sx, sy; reflexivity).
+  apply bra_negb.
+Qed.
+
+Lemma Ftrunc_mul_opp x g : Ftrunc (PrimFloat.mul (PrimFloat.opp x) g) = - Ftrunc (PrimFloat.mul x g).
+Proof.
+  unfold Ftrunc. rewrite !FloatAxioms.mul_spec, FloatAxioms.opp_spec.
+  unfold SF64mul. rewrite SFmul_opp_l. apply SFtrunc_opp.
+Qed.
+
+Lemma Ftrunc_zero_mul g : Ftrunc (PrimFloat.mul (ZtoF 0) g) = 0.
+Proof.
+  unfold Ftrunc. rewrite FloatAxioms.mul_spec.
+  replace (Prim2SF (ZtoF 0)) with (S754_zero false) by (vm_compute; reflexivity).
+  unfold SF64mul. destruct (Prim2SF g); reflexivity.
+Qed.
+
+Lemma ZtoF_opp m : m <> 0 -> ZtoF (- m) = PrimFloat.opp (ZtoF m) \/ ZtoF m = PrimFloat.opp (ZtoF (- m)).
+Proof.
+  intros Hm. unfold ZtoF.
+  destruct (Z.ltb_spec m 0), (Z.ltb_spec (- m) 0); try lia.
+  - right. reflexivity.
+  - left. rewrite Z.opp_involutive. reflexivity.
+Qed.
+
+Lemma fterm_odd m g : Ftrunc (PrimFloat.mul (ZtoF (- m)) g) = - Ftrunc (PrimFloat.mul (ZtoF m) g).
+Proof.
+  destruct (Z.eq_dec m 0) as [->|Hm].
+  - cbn [Z.opp]. rewrite Ftrunc_zero_mul. reflexivity.
+  - destruct (ZtoF_opp m Hm) as [E|E]; rewrite E, Ftrunc_mul_opp; lia.
+Qed.
+
+Theorem interp_odd m e g : interp (- m) (- e) g = - interp m e g.
+Proof. unfold interp. rewrite !fterm_odd. lia. Qed.
 
 (** ** squares *)
 Lemma in_sq64 s : In s squares64 <-> (s < 64)%N.
